@@ -284,9 +284,13 @@ impl Process {
     /// Assigns the given FD to the body.
     ///
     /// If successful, returns an `Ok` value containing the previous body for
-    /// the FD. If the FD is equal to or greater than the current soft limit for
-    /// `Resource::NOFILE`, returns `Err(body)`.
+    /// the FD. If the FD is negative, or equal to or greater than the current
+    /// soft limit for `Resource::NOFILE`, returns `Err(body)`.
     pub fn set_fd(&mut self, fd: Fd, body: FdBody) -> Result<Option<FdBody>, FdBody> {
+        if fd.0 < 0 {
+            return Err(body);
+        }
+
         let limit = self
             .resource_limits
             .get(&Resource::NOFILE)
